@@ -140,7 +140,9 @@ pub fn replay(opts: &HashMap<String, String>) -> Value {
 
 fn replay_fl<F: Fl>(opts: &HashMap<String, String>) -> Value {
     let cases = opts.get("cases").expect("--cases");
-    let max_viol: usize = opts.get("max-violations").map(|s| s.parse().unwrap()).unwrap_or(200);
+    let max_viol: usize = opts.get("max-violations").map(|s| s.parse().unwrap()).unwrap_or(3000);
+    let bucket_cap: usize = opts.get("bucket-cap").map(|s| s.parse().unwrap()).unwrap_or(8);
+    let mut per_bucket: HashMap<String, usize> = HashMap::new();
     let trace_path = opts.get("trace").expect("--trace (adjudication trace of the disagreeing runs)");
     let mut tf = std::io::BufWriter::new(std::fs::File::create(trace_path).expect("create trace"));
     let (mut n_cases, mut n_exec, mut agree, mut n_mismatch) = (0usize, 0usize, 0usize, 0usize);
@@ -178,7 +180,14 @@ fn replay_fl<F: Fl>(opts: &HashMap<String, String>) -> Value {
                 }
             } else {
                 n_mismatch += 1;
-                if mismatches.len() < max_viol {
+                // keep disagreements per class so that a frequent harmless class cannot crowd out a rare one
+                let opn = case["script"].as_array().and_then(|a| a.first()).map(|x| x[1][0].as_str().unwrap_or("?").to_string()).unwrap_or_default();
+                let shape = if r.outcome != "ok" { "failed" } else if r.yields.len() > exp_yields.len() { "more-yields" }
+                    else if r.yields.len() < exp_yields.len() { "fewer-yields" } else if r.yields != exp_yields { "other-yields" } else { "state-or-results" };
+                let bucket = format!("{}|{}|{}|{}|{}|{}", kind, case["loop"]["dir"], case["loop"]["cyc"], m == Meth::Filter, opn, shape);
+                let cnt = per_bucket.entry(bucket).or_insert(0);
+                *cnt += 1;
+                if *cnt <= bucket_cap && mismatches.len() < max_viol {
                     // re-run with per-step logging for TLC
                     let t = run_case::<F>(&case, m, true);
                     let first_line = 0; // filled by the orchestrator from event counts
@@ -202,7 +211,7 @@ fn replay_fl<F: Fl>(opts: &HashMap<String, String>) -> Value {
     .expect("read cases");
     tf.flush().unwrap();
     json!({"flavour": F::NAME, "cases": n_cases, "executions": n_exec, "agree": agree, "n_mismatch": n_mismatch, "mismatches": mismatches,
-           "samples": samples, "distinct_nontrivial": nontrivial.len(), "by_loop_kind": by_kind, "scripts_running_mid_loop": mutating_mid_loop,
+           "mismatch_classes": per_bucket, "samples": samples, "distinct_nontrivial": nontrivial.len(), "by_loop_kind": by_kind, "scripts_running_mid_loop": mutating_mid_loop,
            "lock_points_seen": guard::LOCK_POINTS.load(std::sync::atomic::Ordering::Relaxed)})
 }
 
